@@ -25,7 +25,30 @@ func Key() *rapid.Generator[[]byte] {
 		default:
 			n = rapid.SampledFrom(KeyLens).Draw(t, "keyLenB")
 		}
-		switch rapid.IntRange(0, 5).Draw(t, "keyFill") {
+		switch rapid.IntRange(0, 8).Draw(t, "keyFill") {
+		case 6, 7, 8: // key BYTES that are themselves the text of an encoding (a secret stored encoded twice, a hex key pasted as
+			// raw bytes): base32 text (unpadded, a multiple of 8 characters), hex digits, decimal digits
+			m := rapid.SampledFrom([]int{10, 15, 20, 25, 40, 80}).Draw(t, "keyTextOf")
+			raw := rapid.SliceOfN(rapid.Byte(), m, m).Draw(t, "keyTextRaw")
+			switch rapid.IntRange(0, 3).Draw(t, "keyTextKind") {
+			case 0:
+				return []byte(ref.B32(raw))
+			case 1:
+				return []byte(strings.ToLower(ref.B32(raw)))
+			case 2:
+				const hx = "0123456789ABCDEF"
+				b := make([]byte, 0, 2*m)
+				for _, x := range raw {
+					b = append(b, hx[x>>4], hx[x&15])
+				}
+				return b
+			default:
+				b := make([]byte, m)
+				for i, x := range raw {
+					b[i] = '0' + x%10
+				}
+				return b
+			}
 		case 0:
 			b := make([]byte, n)
 			return b
